@@ -1183,4 +1183,102 @@ theorem finish_b {g : Graph} {c : Nat} {M : Option Int} {sh : Shape} (hc : BClas
     have := b.budget v hv
     omega
 
+theorem reportOutcome_same (g : Graph) (s : State) (w n : Nat) (phase : Phase) (uid : String) (wait : Nat) (out : Outcome) :
+    (reportOutcome g s w n phase uid wait out).1.nodes = s.nodes ∧ (reportOutcome g s w n phase uid wait out).1.workers = s.workers := by
+  unfold reportOutcome
+  dsimp only
+  split
+  · split
+    · split <;> exact ⟨rfl, rfl⟩
+    · exact ⟨rfl, rfl⟩
+  · exact ⟨rfl, rfl⟩
+
+/-- filing the result of a test proper: job records aside, the placeholder of the execution is replaced -/
+theorem recordResult_nonpre (s : State) (w n : Nat) (phase : Phase) (hph : phase ≠ .pre) (name uid : String) (tag : Nat)
+    (st0 : String) (dur : Nat) :
+    ∃ (sJ : State) (st : String), sJ.nodes = s.nodes ∧ sJ.workers = s.workers ∧
+      (recordResult s w n phase name uid tag st0 dur).1 = sJ.setNd n (fun d => { d with
+        results := (d.results ++ [({ name := name, status := st, uid := uid, dur := dur } : Result)]).filter
+          (fun r => !(r.status == "UNKNOWN" && r.tag == tag)) }) := by
+  have hp : (phase == Phase.pre) = false := by cases phase <;> first | rfl | exact absurd rfl hph
+  have hX : ∀ (b : Bool) (jr : List (String × String × String × Nat)),
+      (if b = true then { s with jobResults := jr } else s).nodes = s.nodes ∧
+      (if b = true then { s with jobResults := jr } else s).workers = s.workers := by
+    intro b jr
+    cases b <;> exact ⟨rfl, rfl⟩
+  unfold recordResult
+  simp only [hp, Bool.false_eq_true, if_false]
+  exact ⟨_, _, (hX _ _).1, (hX _ _).2, rfl⟩
+
+theorem fr_recordResult_other (g : Graph) (c : Nat) (s : State) (w n : Nat) (phase : Phase) (name uid : String) (tag : Nat)
+    (st0 : String) (dur : Nat) (hne : (g.node n).cls ≠ c) : Fr g c w s (recordResult s w n phase name uid tag st0 dur).1 := by
+  unfold recordResult
+  dsimp only
+  have hX : ∀ (b : Bool) (jr : List (String × String × String × Nat)),
+      Fr g c w s (if b = true then { s with jobResults := jr } else s) := by
+    intro b jr
+    cases b
+    · exact Fr.refl g c w s
+    · exact Fr.quiet rfl rfl
+  by_cases hp : (phase == Phase.pre) = true
+  · simp only [hp, if_true]
+    exact (hX _ _).trans (fr_setWd g c w _ _ (fun _ h => h) (fun _ h => h))
+  · simp only [hp, Bool.false_eq_true, if_false]
+    exact (hX _ _).trans (fr_setNd g c w _ n _ (fun h => absurd h hne) (fun _ => Nat.le_refl _) (fun h => absurd h hne)
+      (fun h => absurd h hne))
+
+/-- the continuation after the awaited test: given either a node of another class, or the copy of the class with
+its `finished` mark already accounted for -/
+theorem continueAfter_b {g : Graph} {c : Nat} {M : Option Int} {sh : Shape} (hc : BClass g c M sh) (hwf : GraphWF g)
+    (w n : Nat) (phase : Phase) (dir : Dir) (fuel : Nat) (hw : w < g.workers.length) (hf : 0 < fuel)
+    (sc : State) (ok : Bool) (evs : List Event)
+    (h : ((g.node n).cls ≠ c ∧ BInv g c M sh sc (Ex w)) ∨
+         ((g.node n).cls = c ∧ phase = .plain ∧ g.idIn w n = true ∧ BInv g c M sh (finishTraverse sc n w) (Ex w))) :
+    BInv g c M sh (resumeTest.continueAfter g w n phase dir fuel sc ok evs).1 All := by
+  -- the common tail: `afterTraverse`, then failure or the loop
+  have tail : ∀ (s2 : State) (prev : Nat) (evs : List Event), BInv g c M sh s2 (Ex w) →
+      ((g.node n).cls = c → g.idIn w n = true) →
+      BInv g c M sh (match afterTraverse (vis g s2) s2 w n prev dir with
+        | (s, e2, .raise what) =>
+          (s.setWd w (fun d => { d with pc := .failed }), evs ++ e2 ++ [Event.raise (g.worker w).id what])
+        | (s, e2, _) => runLoop g w fuel s (evs ++ e2)).1 All := by
+    intro s2 prev evs b2 hrel
+    have hfr := afterTraverse_fr hc (sameNodes_vis g s2) (hwf.vis s2) s2 w n prev dir hrel
+    split
+    · next s1 e2 what heq =>
+      have h3 := congrArg Prod.fst heq
+      dsimp only at h3
+      rw [h3] at hfr
+      have h2 : Fr g c w s1 (s1.setWd w (fun d => { d with pc := .failed })) :=
+        fr_setWd g c w s1 _ (fun _ h => h) (fun _ _ => notInC_of_nonTest rfl)
+      refine ((b2.fr hc hw hfr).fr hc hw h2).close ?_
+      rcases wd_setWd_cases s1 w (fun d => { d with pc := .failed }) with ⟨h', hl⟩ | ⟨_, h'⟩
+      · rw [h', wd_default_of_ge s1 w hl]; exact notInC_of_nonTest rfl
+      · rw [h']; exact notInC_of_nonTest rfl
+    · next s1 e2 f _ heq =>
+      have h3 := congrArg Prod.fst heq
+      dsimp only at h3
+      rw [h3] at hfr
+      exact runLoop_b hc hwf w hw fuel s1 _ (b2.fr hc hw hfr) (Or.inr hf)
+  unfold resumeTest.continueAfter
+  dsimp only
+  rcases h with ⟨hne, b⟩ | ⟨hnc, hph, hid, b2⟩
+  · split
+    · have hfr := fr_startOther g c w g sc n .main dir hne
+      refine (b.fr hc hw hfr).close ?_
+      by_cases hws : w < sc.workers.length
+      · rw [startTest_pc g sc n w .main dir hws]; exact notInC_test hne _ _ _ _ _
+      · have hge : ¬ w < (startTest g sc n w .main dir).1.workers.length := by rw [hfr.workersLen]; exact hws
+        rw [wd_default_of_ge _ w hge]; exact notInC_of_nonTest rfl
+    · refine tail _ _ _ ?_ (fun h => absurd h hne)
+      refine b.fr hc hw (Fr.trans ?_ (fr_finishTraverse g c w _ n (fun h => absurd h hne)))
+      split
+      · exact fr_setNd g c w sc n _ (fun h => absurd h hne) (fun _ => Nat.le_refl _) (fun h => absurd h hne)
+          (fun h => absurd h hne)
+      · exact Fr.refl g c w sc
+  · subst hph
+    have hp : (Phase.plain == Phase.pre) = false := rfl
+    simp only [hp, Bool.false_and, Bool.false_eq_true, if_false]
+    exact tail _ _ _ b2 (fun _ => hid)
+
 end I2N.Trav
